@@ -1,6 +1,7 @@
 (* Proofs for C05: the datagram path is a map over datagrams; the derived one-shot interface accepts exactly one frame. *)
 From Coq Require Import List Arith Bool Lia.
-From EN Require Import Lib.Bytes Frame.Framer Frame.ReadUntil Frame.OneShot IO.DgramEndpoint Proofs.Bytes_proofs Proofs.ReadUntil_proofs.
+From Coq Require Import NArith ZArith.
+From EN Require Import Lib.Bytes Frame.Framer Frame.ReadUntil Frame.OneShot Frame.LineOneShot IO.DgramEndpoint Proofs.Bytes_proofs Proofs.ReadUntil_proofs.
 Import ListNotations.
 
 Section DG.
@@ -9,16 +10,17 @@ Section DG.
   Variable deserialize : bytes -> ores P.
   Variable to_dto : Q -> P.
   Variable from_dto : P -> option Q.
+  Variable bufsize : N.
   Variable drop_empty : bool.
 
   Notation make := (make_datagram serialize to_dto).
   Notation build := (build_packet_from_datagram deserialize from_dto).
   Notation send := (send_packet serialize to_dto drop_empty).
-  Notation recv := (recv_packet deserialize from_dto).
-  Notation recvc := (recv_packet_cancelled deserialize from_dto).
-  Notation ires := (item_result deserialize from_dto).
-  Notation ops := (do_ops serialize deserialize to_dto from_dto drop_empty).
-  Notation recvn := (recv_n deserialize from_dto).
+  Notation recv := (recv_packet deserialize from_dto bufsize).
+  Notation recvc := (recv_packet_cancelled deserialize from_dto bufsize).
+  Notation ires := (item_result deserialize from_dto bufsize).
+  Notation ops := (do_ops serialize deserialize to_dto from_dto bufsize drop_empty).
+  Notation recvn := (recv_n deserialize from_dto bufsize).
 
   Lemma send_one t q :
     drop_empty = false \/ make q <> [] ->
@@ -42,10 +44,10 @@ Section DG.
   Lemma build_not_nodata d : build d <> RNoData.
   Proof. unfold build_packet_from_datagram. destruct (deserialize d); [destruct (from_dto p)| |]; discriminate. Qed.
 
-  Lemma ires_not_nodata i : ires i <> RNoData /\ ires i <> RCancelled.
+  Lemma ires_not_nodata i : ires i <> RNoData /\ ires i <> RCancelled /\ ires i <> RSendFailed.
   Proof.
-    destruct i; simpl; [|split; discriminate].
-    unfold build_packet_from_datagram. destruct (deserialize d); [destruct (from_dto p)| |]; split; discriminate.
+    destruct i; simpl; [|repeat split; discriminate].
+    unfold build_packet_from_datagram. destruct (deserialize (trunc bufsize d)); [destruct (from_dto p)| |]; repeat split; discriminate.
   Qed.
 
   Lemma recvn_map n : forall t, n <= length (inq t) ->
@@ -58,7 +60,7 @@ Section DG.
   Qed.
 
   (* outcomes that consumed a queue item *)
-  Definition is_data (r : rres Q) : bool := match r with RNoData | RCancelled => false | _ => true end.
+  Definition is_data (r : rres Q) : bool := match r with RNoData | RCancelled | RSendFailed => false | _ => true end.
 
   (* everything that enters the receive queue during an op sequence, in order *)
   Fixpoint arrivals_of (os : list (op (Q := Q))) : list item :=
@@ -76,7 +78,7 @@ Section DG.
   Proof.
     induction os as [|o os IH]; intros t.
     - exists 0. simpl. rewrite app_nil_r. repeat split; lia.
-    - simpl. destruct o as [q| |d| |].
+    - simpl. destruct o as [q| |d| | |].
       + (* send *)
         simpl. destruct (IH (send t q)) as (k & Hk & Hf & Hi).
         destruct (send_at_most_one t q) as [Hin _]. rewrite Hin in *.
@@ -90,7 +92,7 @@ Section DG.
           destruct (IH {| inq := ds; outq := outq t |}) as (k & Hk & Hf & Hi). simpl in *.
           rewrite Hr. destruct (ops {| inq := ds; outq := outq t |} os) as [t2 r2] eqn:E. simpl in *.
           exists (S k). simpl. repeat split; [lia| |exact Hi].
-          destruct (ires_not_nodata d). destruct (ires d) eqn:Eb; simpl; try congruence; rewrite Hf; reflexivity.
+          destruct (ires_not_nodata d) as (? & ? & ?). destruct (ires d) eqn:Eb; simpl; try congruence; rewrite Hf; reflexivity.
       + (* arrive *)
         destruct (IH {| inq := inq t ++ [IData d]; outq := outq t |}) as (k & Hk & Hf & Hi). simpl in *.
         destruct (ops {| inq := inq t ++ [IData d]; outq := outq t |} os) as [t2 r2] eqn:E. simpl in *.
@@ -105,12 +107,18 @@ Section DG.
           destruct (IH {| inq := ds; outq := outq t |}) as (k & Hk & Hf & Hi). simpl in *.
           rewrite Hr. destruct (ops {| inq := ds; outq := outq t |} os) as [t2 r2] eqn:E. simpl in *.
           exists (S k). simpl. repeat split; [lia| |exact Hi].
-          destruct (ires_not_nodata d). destruct (ires d) eqn:Eb; simpl; try congruence; rewrite Hf; reflexivity.
+          destruct (ires_not_nodata d) as (? & ? & ?). destruct (ires d) eqn:Eb; simpl; try congruence; rewrite Hf; reflexivity.
       + (* socket error *)
         destruct (IH {| inq := inq t ++ [IErr]; outq := outq t |}) as (k & Hk & Hf & Hi). simpl in *.
         destruct (ops {| inq := inq t ++ [IErr]; outq := outq t |} os) as [t2 r2] eqn:E. simpl in *.
         rewrite <- app_assoc in *. simpl in *. exists k. auto.
+      + (* failed send *)
+        destruct (IH t) as (k & Hk & Hf & Hi). simpl in *.
+        destruct (ops t os) as [t2 r2] eqn:E. simpl in *. exists k. auto.
   Qed.
+
+  Lemma not_truncated d : (N.of_nat (length d) <= bufsize)%N -> ires (IData d) = build d.
+  Proof. intros H. simpl. unfold trunc. apply N.leb_le in H. rewrite H. reflexivity. Qed.
 
   Lemma isolated (ds ds' : list item) o o' i :
     i < length ds -> i < length ds' -> nth i ds IErr = nth i ds' IErr ->
@@ -126,6 +134,42 @@ Section DG.
     rewrite (map_nth ires ds IErr i), (map_nth ires ds' IErr i). apply f_equal. exact He.
   Qed.
 End DG.
+
+(* ---------------------------------------------------------------- StringLineSerializer one-shot codec *)
+Lemma strip_suffixes_noop fuel sep data : endswithb data sep = false -> strip_suffixes fuel sep data = data.
+Proof. intros H. destruct fuel; simpl; [reflexivity|]. rewrite H. reflexivity. Qed.
+
+Lemma line_roundtrip sep keep_end ascii p :
+  (keep_end = true \/ endswithb p sep = false) ->
+  (ascii = true -> forallb (fun b => N.ltb b 128) p = true) ->
+  line_deserialize sep keep_end ascii (line_serialize p) = OOk p.
+Proof.
+  intros Hk Ha. unfold line_deserialize, line_serialize, line_decode.
+  assert (E : (if keep_end then p else strip_suffixes (length p) sep p) = p).
+  { destruct keep_end; [reflexivity|]. destruct Hk as [Hk|Hk]; [discriminate|]. apply strip_suffixes_noop. exact Hk. }
+  rewrite E. destruct ascii; simpl; [rewrite Ha by reflexivity|]; reflexivity.
+Qed.
+
+(* only WHOLE trailing separators are removed: the result is a prefix of the datagram, the removed suffix is a
+   repetition of the separator *)
+Lemma concat_repeat_comm (sep : bytes) k : concat (repeat sep k) ++ sep = sep ++ concat (repeat sep k).
+Proof. induction k; simpl; [rewrite app_nil_r; reflexivity|]. rewrite <- app_assoc, IHk. reflexivity. Qed.
+
+Lemma strip_suffixes_spec fuel sep : forall data, exists k,
+  data = strip_suffixes fuel sep data ++ concat (repeat sep k).
+Proof.
+  induction fuel as [|f IH]; intros data; simpl.
+  - exists 0. simpl. rewrite app_nil_r. reflexivity.
+  - destruct (endswithb data sep) eqn:E.
+    + remember (firstn (length data - length sep) data) as pre eqn:Epre.
+      destruct (IH pre) as [k Hk]. exists (S k).
+      assert (Hs : data = pre ++ sep).
+      { unfold endswithb in E. apply andb_prop in E. destruct E as [_ E]. apply bytes_eqb_eq in E.
+        pose proof (firstn_skipn (length data - length sep) data) as Hfs. rewrite E, <- Epre in Hfs. symmetry. exact Hfs. }
+      transitivity (pre ++ sep); [exact Hs|].
+      rewrite Hk at 1. simpl. rewrite <- app_assoc. f_equal. apply concat_repeat_comm.
+    + exists 0. simpl. rewrite app_nil_r. reflexivity.
+Qed.
 
 (* ---------------------------------------------------------------- derived one-shot interface over read_until *)
 Section OneShotUntil.
